@@ -7,7 +7,8 @@ import Amgcl.Properties.C01
 **What is theorem here.**  `amgcl::mpi::make_solver` runs the serial Krylov template with rank-local vectors, a
 `distributed_matrix`, the distributed preconditioner and `mpi::inner_product`.  `Model/Lockstep.lean` fixes the
 interface through which a solver touches its data as an instruction set (axpby, axpbypcz, copy, clear, spmv,
-residual, preconditioner, inner product, arbitrary rank-local scalar computations, `if`/`while` on scalars) with a
+residual, preconditioner, lin_comb, inner product, arbitrary rank-local scalar computations on a scalar state of any
+type, vector operands selected by the rank's own scalars, `if`/`while`/`for` on scalars) with a
 serial semantics `run` and a distributed semantics `drun` in which **every rank holds its own copy of every
 scalar** and a branch on which two ranks disagree blocks the run.
 
@@ -35,8 +36,9 @@ every explored input by predicates
 on the gathered outputs (aggregates form a global partition; `A_c = s·R·A·P`, exactly on dyadic data; `R = Pᵀ`;
 `A x = f` for the consolidated direct solver), together with bitwise equality of `(iters, resid)` across ranks and
 the true residual of the gathered solution.  Convergence per combination is a labelled test.  The other Krylov
-methods are covered by `lockstep_refines_serial` once written in the instruction set (same script as CG);
-only CG is linked to its C01 model here.  IEEE rounding is not modelled: in `double` the ranks agree bitwise because
+methods (Richardson, BiCGStab, GMRES, FGMRES, preonly) are in `Properties/C12c.lean`: each is written in the
+instruction set, proved equal to its C01/C05/C15 model, and gets `lockstep_S_refines_serial` / `lockstep_S_truthful`;
+LGMRES, IDR(s), BiCGStab(L) are not yet written in the set.  IEEE rounding is not modelled: in `double` the ranks agree bitwise because
 `MPI_Allreduce` delivers one value to all ranks (checked by the harness), not because of these theorems.
 -/
 namespace Amgcl.C12
